@@ -1,14 +1,16 @@
 (** C11 -- command substitution splices the command's output in literally, exactly once.
-    Statements only; proofs are in Proofs/. *)
+    Statements only; proofs are in Proofs/.  The model follows 85ca576 (an inner line that does not plan
+    yields the empty string) and 5e2d7b7 (the output is spliced as text, not as a replacement template). *)
 From Coq Require Import List NArith ZArith.
-From Cicada Require Import Base.Chars Base.Tag Model.Expand Model.ExpandRef
-  Proofs.ExpandBasics Proofs.SubstProofs Proofs.SubstWitness Model.SubstVariant Proofs.SubstVariantProofs.
+From Cicada Require Import Base.Chars Base.Tag Model.Expand Model.ExpandRef Model.SubstVariant
+  Proofs.ExpandBasics Proofs.SubstProofs Proofs.SubstWitness Proofs.SubstVariantProofs Proofs.ExpandInert Proofs.SubstOrder.
+From Cicada Require Model.Tokenizer.
 Import ListNotations.
 Local Open Scope N_scope.
 
-(** Full statement (false of the faithful model): for a word  head $( cmd ) tail  the result
-    is head, the output without its trailing newlines, tail; the runner is consulted once;
-    an inner line that does not plan gives the empty replacement within bounded fuel. *)
+(** Full statement: for a word  head $( cmd ) tail  the result is head, the output without its trailing
+    newlines, tail; the runner is consulted once; an inner line that does not plan gives the empty
+    replacement within bounded fuel. *)
 Definition C11_full : Prop :=
   forall W head cmd tail, word_ok head cmd tail ->
   (forall out, run_capture W cmd = Some out ->
@@ -17,95 +19,116 @@ Definition C11_full : Prop :=
   /\ (run_capture W cmd = None ->
      exists f, dollar_loop f W (head ++ [36; 40] ++ cmd ++ [41] ++ tail) [] = Ok (Some (head ++ tail), [cmd])).
 
+(** Still false, for one recorded reason: ALL surrounding white space of the output is trimmed, not only
+    the trailing newlines (cicada has no word splitting; notes/C11-fix-3.patch proposes the repair for
+    double-quoted words). *)
 Theorem C11_refuted : ~ C11_full.
 Proof. exact full_refuted. Qed.
+Theorem C11_refuted_whitespace : forall f, (2 <= f)%nat ->
+  dollar_loop f W_ws [112; 36; 40; 120; 41; 113] [] = Ok (Some [112; 118; 113], [[120]])
+  /\ strip_nl [32; 118; 32; 10] = [32; 118; 32].
+Proof. exact whitespace_witness. Qed.
 
-(** Repaired (85ca576), now a theorem: an inner line that does not plan gives the empty
-    replacement after exactly one consultation of the runner, with fuel 2 -- never a hang. *)
+(** The main theorem (every world, every word of the shape, every output): the word becomes
+    head ++ trimmed output ++ tail after exactly one consultation of the runner (log = [cmd]), fuel 2.
+    The output is TEXT: dollars, $1, ${x}, $name, backslashes, braces, stars in it stay as they are.  The only
+    outputs excluded are those that bring a dollar directly followed by an open paren into the word: the loop
+    would run that again (recorded class output_rescanned). *)
+Theorem C11_splices : forall W head cmd tail f,
+  ~ In 36 head -> ~ In 10 tail -> ~ In 41 tail -> cmd <> [] -> ~ In 41 cmd -> ~ In 10 cmd ->
+  (~ In 61 (head ++ [36; 40] ++ cmd ++ [41] ++ tail) \/ ~ In 39 (head ++ [36; 40] ++ cmd ++ [41] ++ tail)) ->
+  has_dollar_paren (head ++ trim (oracle_out W cmd) ++ tail) = false ->
+  dollar_loop (S (S f)) W (head ++ [36; 40] ++ cmd ++ [41] ++ tail) []
+  = Ok (Some (head ++ trim (oracle_out W cmd) ++ tail), [cmd]).
+Proof. exact dollar_loop_splices. Qed.
+
+(** ... in the property's words (trailing newlines only) whenever trimming and stripping coincide. *)
+Definition Known_C11 (W : World) (head cmd tail : str) : Prop :=
+  match run_capture W cmd with
+  | None => False
+  | Some out => has_dollar_paren (head ++ trim out ++ tail) = true \/ trim out <> strip_nl out
+  end.
+Theorem C11_partial : forall W head cmd tail out f,
+  word_ok head cmd tail -> run_capture W cmd = Some out ->
+  has_dollar_paren (head ++ trim out ++ tail) = false -> trim out = strip_nl out ->
+  dollar_loop (S (S f)) W (head ++ [36; 40] ++ cmd ++ [41] ++ tail) []
+  = Ok (Some (head ++ strip_nl out ++ tail), [cmd]).
+Proof. exact splice_partial. Qed.
+
+(** An inner line that does not plan gives the empty replacement after one consultation -- never a hang. *)
 Theorem C11_unplannable : forall W head cmd tail f,
   word_ok head cmd tail -> run_capture W cmd = None ->
   dollar_loop (S (S f)) W (head ++ [36; 40] ++ cmd ++ [41] ++ tail) [] = Ok (Some (head ++ tail), [cmd]).
 Proof. exact unplannable_empty. Qed.
 
-(** Termination for EVERY word (any number of substitutions, any nesting, inner lines that plan or
-    not): if no output of the runner carries a dollar after trimming, the loop ends within
-    (number of dollars in the word) + 1 iterations. *)
+(** Termination for EVERY word: if no output of the runner carries a dollar after trimming, the loop ends
+    within (number of dollars in the word) + 1 iterations. *)
 Theorem C11_terminates : forall W,
   (forall c o, run_capture W c = Some o -> ~ In 36 (trim o)) ->
   forall line log, exists r, dollar_loop (S (count_occ N.eq_dec line 36)) W line log = Ok r.
 Proof. exact dollar_loop_terminates. Qed.
 
-(** The embedded backquote spelling, one substitution: head, trimmed output, tail; one call. *)
+(** The embedded backquote spelling, one substitution. *)
 Theorem C11_backquote : forall W h c t item output log f,
   ~ In 96 h -> ~ In 96 c -> c <> [] -> ~ In 96 t -> ~ In 10 t ->
   dot_loop (S (S f)) W (h ++ 96 :: c ++ 96 :: t) item output log
   = Ok (item ++ h ++ (match run_capture W c with Some o => trim o | None => output end) ++ t, log ++ [c]).
 Proof. exact dot_loop_one. Qed.
 
-(** The two recorded classes of the dollar spelling. *)
-(** (1) the output is a replacement template: a$1b becomes a. *)
-Theorem C11_refuted_template : forall f, (2 <= f)%nat ->
-  dollar_loop f W_tpl [36; 40; 120; 41] [] = Ok (Some [97], [[120]]).
-Proof. exact template_witness. Qed.
-(** (2) all surrounding white space is trimmed, not only trailing newlines. *)
-Theorem C11_refuted_whitespace : forall f, (2 <= f)%nat ->
-  dollar_loop f W_ws [112; 36; 40; 120; 41; 113] [] = Ok (Some [112; 118; 113], [[120]])
-  /\ strip_nl [32; 118; 32; 10] = [32; 118; 32].
-Proof. exact whitespace_witness. Qed.
+(** Pass ORDER of do_expansion (composed with the real tokenizer): filename expansion runs BEFORE command
+    substitution, so the output of an unquoted $(c) is inserted literally -- for every world, in particular
+    for EVERY glob oracle -- even when it holds a star that would match files. *)
+Theorem C11_output_not_globbed : forall W f cmd0 c,
+  cmd_ok W cmd0 ->
+  c <> [] -> ~ In 36 c -> ~ In 123 c -> ~ In 42 c -> ~ In 96 c -> ~ In 41 c -> ~ In 10 c -> ~ In 126 c ->
+  (~ In 61 c \/ ~ In 39 c) ->
+  has_dollar_paren (trim (oracle_out W c)) = false -> ~ In 123 (trim (oracle_out W c)) ->
+  do_expansion Tokenizer.parse_line W (S (S f)) [(TNone, cmd0); (TNone, [36; 40] ++ c ++ [41])]
+  = Ok [(TNone, cmd0); (TNone, trim (oracle_out W c))].
+Proof. exact output_not_globbed. Qed.
+(** non-vacuity: the runner prints *.txt, the glob oracle would match a.txt b.txt for anything *)
+Example C11_output_star_stays : forall f,
+  do_expansion Tokenizer.parse_line W_star (S (S f)) [(TNone, [101; 99; 104; 111]); (TNone, [36; 40; 120; 41])]
+  = Ok [(TNone, [101; 99; 104; 111]); (TNone, [42; 46; 116; 120; 116])].
+Proof. exact output_star_by_theorem. Qed.
 
-(** Partial statement: outside those classes (decidable on the runner's answer) the word
-    becomes head ++ output-without-trailing-newlines ++ tail after exactly one call of the runner
-    (the log is [cmd]), with fuel 2, for every world. *)
-Definition Known_C11 (W : World) (cmd : str) : Prop :=
-  match run_capture W cmd with
-  | None => False
-  | Some out => In 36 (trim out) \/ trim out <> strip_nl out
-  end.
-Theorem C11_partial : forall W head cmd tail out f,
-  word_ok head cmd tail -> run_capture W cmd = Some out ->
-  ~ In 36 (trim out) -> trim out = strip_nl out ->
-  dollar_loop (S (S f)) W (head ++ [36; 40] ++ cmd ++ [41] ++ tail) []
-  = Ok (Some (head ++ strip_nl out ++ tail), [cmd]).
-Proof. exact splice_partial. Qed.
+(** Regression for 5e2d7b7: the output a$1b is kept (it used to become a). *)
+Example C11_template_kept : forall f, (2 <= f)%nat ->
+  dollar_loop f W_tpl [36; 40; 120; 41] [] = Ok (Some [97; 36; 49; 98], [[120]]).
+Proof. exact template_kept. Qed.
 
-(** About the PROPOSED repairs notes/C11-fix-2.patch (closure replacer: the output is text) and
-    notes/C11-fix-3.patch (inside double quotes only trailing newlines are removed); Model/SubstVariant.v
-    transcribes the patched loop.  The output may then contain dollars ($1, ${x}, $name stay as they are);
-    the only output still excluded is one that brings a dollar directly followed by an open paren into the
-    word, because the loop would run it (class output_rescanned). *)
-Theorem C11_variant : forall W tg head cmd tail f,
+(** About the PROPOSED repair notes/C11-fix-3.patch (Model/SubstVariant.v): inside double quotes only the
+    trailing newlines go -- then the double-quoted word is exactly what the property asks for. *)
+Theorem C11_variant_dq : forall W head cmd tail f,
   ~ In 36 head -> ~ In 10 tail -> ~ In 41 tail -> cmd <> [] -> ~ In 41 cmd -> ~ In 10 cmd ->
   (~ In 61 (head ++ [36; 40] ++ cmd ++ [41] ++ tail) \/ ~ In 39 (head ++ [36; 40] ++ cmd ++ [41] ++ tail)) ->
-  has_dollar_paren (head ++ trim_out tg (oracle_out W cmd) ++ tail) = false ->
-  dollar_loop_v (S (S f)) W tg (head ++ [36; 40] ++ cmd ++ [41] ++ tail) []
-  = Ok (Some (head ++ trim_out tg (oracle_out W cmd) ++ tail), [cmd]).
-Proof. exact dollar_loop_v_splices. Qed.
-Example C11_variant_examples :
-  dollar_loop_v 2 W_tpl_v TNone [36; 40; 120; 41] [] = Ok (Some [97; 36; 49; 98], [[120]]) /\
-  dollar_loop_v 2 W_ws_v TDq [112; 36; 40; 120; 41; 113] [] = Ok (Some [112; 32; 118; 32; 113], [[120]]) /\
-  dollar_loop_v 2 W_ws_v TNone [112; 36; 40; 120; 41; 113] [] = Ok (Some [112; 118; 113], [[120]]).
-Proof. split; [exact variant_template_kept | split; [exact variant_dq_keeps_blanks | exact variant_unquoted_trims]]. Qed.
+  has_dollar_paren (head ++ strip_nl (oracle_out W cmd) ++ tail) = false ->
+  dollar_loop_v (S (S f)) W TDq (head ++ [36; 40] ++ cmd ++ [41] ++ tail) []
+  = Ok (Some (head ++ strip_nl (oracle_out W cmd) ++ tail), [cmd]).
+Proof. exact dollar_loop_v_dq. Qed.
 
 Check C11_refuted : ~ C11_full.
-Check C11_partial : forall W head cmd tail out f,
-  word_ok head cmd tail -> run_capture W cmd = Some out ->
-  ~ In 36 (trim out) -> trim out = strip_nl out ->
+Check C11_splices : forall W head cmd tail f,
+  ~ In 36 head -> ~ In 10 tail -> ~ In 41 tail -> cmd <> [] -> ~ In 41 cmd -> ~ In 10 cmd ->
+  (~ In 61 (head ++ [36; 40] ++ cmd ++ [41] ++ tail) \/ ~ In 39 (head ++ [36; 40] ++ cmd ++ [41] ++ tail)) ->
+  has_dollar_paren (head ++ trim (oracle_out W cmd) ++ tail) = false ->
   dollar_loop (S (S f)) W (head ++ [36; 40] ++ cmd ++ [41] ++ tail) []
-  = Ok (Some (head ++ strip_nl out ++ tail), [cmd]).
+  = Ok (Some (head ++ trim (oracle_out W cmd) ++ tail), [cmd]).
 
-(** Non-vacuity: word_ok [] "x" [] holds and, with a runner answering "x" by "l1<nl>l2<nl><nl>",
-    the token a$(x)b becomes "al1<nl>l2b" after one call. *)
+(** Non-vacuity: word_ok [] "x" [] holds and, with a runner answering "x" by "l1<nl>$1<nl><nl>",
+    the token a$(x)b becomes "al1<nl>$1b" after one call. *)
 Example C11_nonvacuous :
   word_ok [] [120] [] /\
-  dollar_loop 2 (world_of [] [([120], Some [108; 49; 10; 108; 50; 10; 10])]) [97; 36; 40; 120; 41; 98] []
-  = Ok (Some [97; 108; 49; 10; 108; 50; 98], [[120]]).
+  dollar_loop 2 (world_of [] [([120], Some [108; 49; 10; 36; 49; 10; 10])]) [97; 36; 40; 120; 41; 98] []
+  = Ok (Some [97; 108; 49; 10; 36; 49; 98], [[120]]).
 Proof. split; [exact word_ok_x | vm_compute; reflexivity]. Qed.
 
 Print Assumptions C11_refuted.
+Print Assumptions C11_refuted_whitespace.
+Print Assumptions C11_splices.
+Print Assumptions C11_partial.
 Print Assumptions C11_unplannable.
 Print Assumptions C11_terminates.
 Print Assumptions C11_backquote.
-Print Assumptions C11_refuted_template.
-Print Assumptions C11_refuted_whitespace.
-Print Assumptions C11_partial.
-Print Assumptions C11_variant.
+Print Assumptions C11_output_not_globbed.
+Print Assumptions C11_variant_dq.
